@@ -98,6 +98,57 @@ theorem rescan_after_forced_overlay_redundant (s : Site) (t forced : ETree) (ht 
   unfold overlayForced
   simp [(scan_false_iff _).mpr (deepOverlay_errFree t ht forced hf)]
 
+/-! ## … but the scan at the `resource` site is not: the forced overlay hides what it overwrites -/
+
+/-- the forced name/kind overlay writes `apiVersion` and `kind` whatever stood there: the merged object
+    does not depend on the template's value at these keys -/
+theorem forced_overlay_overwrites_identity_keys (env : Env) (name : String) (ns : Option String)
+    (k : String) (hk : k = "apiVersion" ∨ k = "kind") (x : ETree) (kvs : List (EKey × ETree)) :
+    deepOverlay (.obj (blankAt (.str k) x kvs)) (forcedOverlay env name ns)
+      = deepOverlay (.obj kvs) (forcedOverlay env name ns) := by
+  simp only [forcedOverlay, deepOverlay, kvsOf]
+  congr 1
+  rcases hk with rfl | rfl
+  · exact deepOverlayO_blankAt _ x (.str env.apiVersion) trivial _ _ (by simp [lookup])
+  · exact deepOverlayO_blankAt _ x (.str env.kind) trivial _ _ (by simp [lookup])
+
+/-- … so the scan after the forced overlay is no substitute for the scan at the `resource` site: a template
+    whose only error objects sit at (or below) `apiVersion` / `kind` has an error object, and yet
+    `_overlay(…, forced_overlay)` + `check_for_celevalerror` lets it through as if nothing had failed -/
+theorem rescan_after_forced_overlay_is_no_substitute (env : Env) (name : String) (ns : Option String) (s : Site)
+    (k : String) (hk : k = "apiVersion" ∨ k = "kind") (e v : ETree) (he : HasErr e)
+    (kvs : List (EKey × ETree)) (hclean : ErrFree (.obj kvs)) (hl : lookup (.str k) kvs = some v) :
+    HasErr (.obj (blankAt (.str k) e kvs)) ∧
+    overlayForced s (.obj (blankAt (.str k) e kvs)) (forcedOverlay env name ns)
+      = pure (deepOverlay (.obj kvs) (forcedOverlay env name ns)) := by
+  refine ⟨blankAt_hasErr hl he, ?_⟩
+  unfold overlayForced
+  rw [forced_overlay_overwrites_identity_keys env name ns k hk e kvs]
+  simp [(scan_false_iff _).mpr (deepOverlay_errFree _ hclean _ (forcedOverlay_errFree env name ns))]
+
+/-- the code (and the model) do scan at the site: such a template is a PermFail at `spec.resource`,
+    before anything is merged or sent -/
+theorem masked_template_error_is_permfail (eval : Oracle) (loc : Site → Site) (f : RF) (env : Env)
+    (forced : ETree) (hf : f.template = .inline true)
+    (k : EKey) (e v : ETree) (he : HasErr e) (kvs : List (EKey × ETree)) (hl : lookup k kvs = some v)
+    (heval : eval (loc .resource) = .val (.obj (blankAt k e kvs))) :
+    (constructTemplate eval loc f env forced).res = .error (.permFail (loc .resource) .evalError) ∧
+    (constructTemplate eval loc f env forced).outs = [] := by
+  have hs : scan (.obj (blankAt k e kvs)) = true := (scan_iff _).mpr (blankAt_hasErr hl he)
+  simp [constructTemplate, hf, siteOpt, site, heval, hs, bind, bind']
+
+/-- same for `metadata.name`, `metadata.namespace` (concrete shape, any `e`) and a `metadata` that is an error object -/
+theorem forced_overlay_masks_metadata (env : Env) (name n : String) (e spec labels : ETree)
+    (hs : ErrFree spec) (hlab : ErrFree labels) :
+    scan (deepOverlay (.obj [(.str "metadata", .obj [(.str "name", e), (.str "labels", labels)]), (.str "spec", spec)])
+        (forcedOverlay env name (some n))) = false ∧
+    scan (deepOverlay (.obj [(.str "metadata", .obj [(.str "labels", labels), (.str "namespace", e)]), (.str "spec", spec)])
+        (forcedOverlay env name (some n))) = false ∧
+    scan (deepOverlay (.obj [(.str "metadata", .err), (.str "spec", spec)]) (forcedOverlay env name (some n))) = false := by
+  have h1 := (scan_false_iff _).mpr hs
+  have h2 := (scan_false_iff _).mpr hlab
+  simp [forcedOverlay, deepOverlay, deepOverlayO, kvsOf, ETree.insert, lookup, scan, scanO, h1, h2]
+
 /-! ## every value that is returned, published or sent is error-free -/
 
 /-- ValueFunction (as a step, or as an overlayRef on an error-free resource) -/
@@ -315,5 +366,15 @@ example : failure (stepRun evalFE noInterp id stepFE).res = some (.permFail (.it
     (stepRun evalFE noInterp id stepFE).evals.map (·.1) =
       [.stepInputs, .stepSkipIf, .forEach, .iter 0 .switchOn, .iter 0 (.vf .returnValue), .iter 1 .switchOn,
        .iter 1 (.vf .returnValue), .iter 2 .switchOn, .iter 2 (.vf .returnValue)] := by decide
+
+/-- `{apiVersion: <error object>, spec: {}}` has an error object, and the forced overlay + re-scan alone would hand
+    on `{apiVersion: "v1", spec: {}, kind: "K", metadata: {…}}`; the scan at the site makes it a PermFail -/
+example :
+    HasErr (.obj (blankAt (.str "apiVersion") .err [(.str "apiVersion", .str "x"), (.str "spec", .obj [])])) ∧
+    overlayForced .resource (.obj (blankAt (.str "apiVersion") .err [(.str "apiVersion", .str "x"), (.str "spec", .obj [])]))
+        (forcedOverlay envAbsent "n" (some "ns"))
+      = pure (deepOverlay (.obj [(.str "apiVersion", .str "x"), (.str "spec", .obj [])]) (forcedOverlay envAbsent "n" (some "ns"))) :=
+  rescan_after_forced_overlay_is_no_substitute envAbsent "n" (some "ns") .resource "apiVersion" (.inl rfl) .err (.str "x")
+    HasErr.here _ ((scan_false_iff _).mp (by simp [scan, scanO])) (by simp [lookup])
 
 end Koreo.C10
